@@ -66,6 +66,13 @@ class Machine(object):
     self.seam_missing = []
     self.op_index = -1
     self.fresh_budget = plan.get("world", {}).get("fresh_restarts", 0)
+    # every dataset of the plan exists before the first operation (bases before the
+    # views into them): what the caller edits later is edited in all of them alike
+    for k_ in sorted(plan.get("datasets", {}), key=lambda x: bool(plan["datasets"][x].get("view_of"))):
+      try:
+        self.dataset(k_)
+      except Exception:
+        pass
 
   # ------------------------------------------------------------- resources
   def dataset(self, key):
